@@ -208,6 +208,9 @@ def hash_file(
     else:
         _callback = LargeFileHashingCallback(desc=path)
 
+    # NOTE: stat before reading, so that the hash is never saved in the state
+    # against the stat of a file that was modified after we've read it.
+    info = info or fs.info(path)
     with _callback as cb:
         oid, meta = _hash_file(path, fs, name, callback=cb, info=info)
 
